@@ -18,7 +18,7 @@ theorem sim_prepare {s : Impl} {r : Ref} (c : Cfg) (h : Sim s r) (th : Nat)
   have hf := abs_fields h
   have hstack : r.stack = [] := all2_nil_left (hr ▸ h.revs)
   simp only [Ref.step, Impl.prepare]
-  refine ⟨⟨h.cinv.objs, h.cinv.nodup, h.cinv.store⟩, h.entries, ?_, rfl, h.nextRev, h.touched, h.tc, h.nodup, ?_, ?_, ?_, ?_, h.sticky⟩
+  refine ⟨⟨h.cinv.objs, h.cinv.nodup, h.cinv.store⟩, h.entries, ?_, rfl, h.nextRev, h.touched, h.tc, h.nodup, ?_, ?_, ?_, ?_, h.sticky, ?_, h.cnt, h.ook⟩
   · simp only [absI, absR, AW.mk.injEq]
     exact ⟨hf.1, hf.2.1, funext hf.2.2.1, hf.2.2.2.1, trivial, trivial⟩
   · show All2 _ s.revisions r.stack
@@ -26,6 +26,8 @@ theorem sim_prepare {s : Impl} {r : Ref} (c : Cfg) (h : Sim s r) (th : Nat)
   · exact h.idsLt
   · exact h.idsSorted
   · exact h.jSorted
+  · show JOK s.store _ s.journal.entries.reverse
+    rw [he]; trivial
 
 theorem sim_reset {s : Impl} {r : Ref} (c : Cfg) (h : Sim s r) (he : s.journal.entries = []) :
     Sim s.reset (r.step c .reset).1 := by
@@ -35,7 +37,8 @@ theorem sim_reset {s : Impl} {r : Ref} (c : Cfg) (h : Sim s r) (he : s.journal.e
     rw [he] at this; simp at this
   simp only [Ref.step, Impl.reset, Impl.init]
   refine ⟨⟨by intro a o ha; simp at ha, by simp [akeys], h.cinv.store⟩, by intro e he; simp [Journal.new] at he, ?_, rfl, rfl,
-    by intro a; simp [Journal.new], ?_, h.nodup, trivial, by intro x hx; simp at hx, by simp, by simp, rfl⟩
+    by intro a; simp [Journal.new], ?_, h.nodup, trivial, by intro x hx; simp at hx, by simp, by simp, rfl,
+    by simp [Journal.new, JOK], JCnt.new, by simp [Journal.new, OOK]⟩
   · simp only [absI, absR, AW.mk.injEq]
     refine ⟨?_, trivial, by funext h'; simp, by simp, trivial, trivial⟩
     funext a
@@ -92,14 +95,15 @@ theorem sim_getCommitted {s : Impl} {r : Ref} (h : Sim s r) (a : Addr) (k : Key)
     · subst h1
       rw [h2]
       obtain ⟨hok, hobj, haddr⟩ := hr.2.2.2 o rfl
-      have hst : Step s s1 r r.cur [] := (Step.refl h).sameAbs hs.1 hs.2.1 hs.2.2.1
+      have hst : Step s s1 r r.cur [] := (Step.refl h).sameAbs hs.1 hs.2.1 hs.2.2.1 (getObj_okOf s s1 h.cinv a _ hg)
       have hacct := hst.acct a o hobj hok
       simp only [f]
       cases hgc : o.getCommitted s1.store k with
       | mk o1 v =>
         have hgc' : o.getCommitted s.store k = (o1, v) := by rw [← hr.2.2.1]; exact hgc
         have hsp := getCommitted_spec s.store o o1 k v hok hgc'
-        have hst2 := hst.recache a o o1 hacct hsp.2.1 hsp.2.2.1 (hsp.2.2.2.trans haddr)
+        have hst2 := hst.recache a o o1 hacct hsp.2.1 hsp.2.2.1 (hsp.2.2.2.trans haddr) hobj
+          (getCommitted_origin s.store o o1 k v hgc').2
         refine ⟨?_, h.step hst2⟩
         show Out.nat v = Out.nat (x.cslot k)
         rw [hsp.1, (view_fields hv).2.2.2.2.2.2 k]
@@ -123,14 +127,15 @@ theorem sim_getState {s : Impl} {r : Ref} (h : Sim s r) (a : Addr) (k : Key) :
     · subst h1
       rw [h2]
       obtain ⟨hok, hobj, haddr⟩ := hr.2.2.2 o rfl
-      have hst : Step s s1 r r.cur [] := (Step.refl h).sameAbs hs.1 hs.2.1 hs.2.2.1
+      have hst : Step s s1 r r.cur [] := (Step.refl h).sameAbs hs.1 hs.2.1 hs.2.2.1 (getObj_okOf s s1 h.cinv a _ hg)
       have hacct := hst.acct a o hobj hok
       simp only [f]
       cases hgc : o.getState s1.store k with
       | mk o1 v =>
         have hgc' : o.getState s.store k = (o1, v) := by rw [← hr.2.2.1]; exact hgc
         have hsp := getState_spec s.store o o1 k v hok hgc'
-        have hst2 := hst.recache a o o1 hacct hsp.2.1 hsp.2.2.1 (hsp.2.2.2.trans haddr)
+        have hst2 := hst.recache a o o1 hacct hsp.2.1 hsp.2.2.1 (hsp.2.2.2.trans haddr) hobj
+          (getState_origin s.store o o1 k v hok hgc').2
         refine ⟨?_, h.step hst2⟩
         show Out.nat v = Out.nat (x.slot k)
         rw [hsp.1, (view_fields hv).2.2.2.2.2.1 k]
@@ -139,42 +144,126 @@ theorem sim_getState {s : Impl} {r : Ref} (h : Sim s r) (a : Addr) (k : Key) :
 
 theorem withCur_cur (r : Ref) : r.withCur r.cur = r := rfl
 
-theorem safe_parts {c : Cfg} {s : Impl} {op : Op} (h : s.safeStep c op = true) :
-    s.guard c op = true ∧ ((s.step c op).2 = .panic → s.legitPanic op = true) := by
-  simp only [Impl.safeStep, Bool.and_eq_true, Bool.or_eq_true, bne_iff_ne, ne_eq] at h
-  refine ⟨h.1, fun hp => ?_⟩
-  rcases h.2 with h2 | h2
-  · exact absurd hp h2
-  · exact h2
+/-! ### the state-changing calls never fail (but for the shared panics) -/
+
+theorem createObject_total (s : Impl) (a : Addr) : ∃ x, s.createObject a = some x := by
+  simp only [Impl.createObject, Impl.jappend, Option.map_some]
+  exact ⟨_, rfl⟩
+
+theorem getOrNew_total (s : Impl) (a : Addr) : ∃ x, s.getOrNew a = some x := by
+  unfold Impl.getOrNew
+  cases hg : s.getObj a with
+  | mk s1 ro =>
+    cases ro with
+    | some o => exact ⟨_, rfl⟩
+    | none =>
+      obtain ⟨x, hx⟩ := createObject_total s1 a
+      simp only [hx, Option.map_some]
+      exact ⟨_, rfl⟩
+
+theorem createAccount_total (s : Impl) (a : Addr) : ∃ x, s.createAccount a = some x := by
+  unfold Impl.createAccount
+  obtain ⟨⟨s1, newObj, pv⟩, hx⟩ := createObject_total s a
+  rw [hx]
+  cases pv with
+  | none => exact ⟨_, rfl⟩
+  | some p => simp only [Impl.objSetBalance, Impl.jappend, Option.map_some]; exact ⟨_, rfl⟩
+
+theorem setNonce_total (s : Impl) (a : Addr) (n : Nat) : ∃ x, s.setNonce a n = some x := by
+  unfold Impl.setNonce
+  obtain ⟨⟨s1, o⟩, hx⟩ := getOrNew_total s a
+  simp only [hx, Impl.jappend, Option.map_some]
+  exact ⟨_, rfl⟩
+
+theorem addBalance_total (c : Cfg) (s : Impl) (a : Addr) (n : Nat) : ∃ x, s.addBalance c a n = some x := by
+  unfold Impl.addBalance
+  obtain ⟨⟨s1, o⟩, hx⟩ := getOrNew_total s a
+  simp only [hx]
+  by_cases hn : n = 0
+  · simp only [hn, if_true]
+    by_cases he : o.empty = true
+    · simp only [he, if_true, Impl.touch, Impl.jappend]
+      by_cases hr : a = c.ripemd
+      · simp only [hr, if_true]; exact ⟨_, rfl⟩
+      · simp only [hr, if_false]; exact ⟨_, rfl⟩
+    · simp only [he, Bool.false_eq_true, if_false]; exact ⟨_, rfl⟩
+  · simp only [hn, if_false, Impl.jappend, Option.map_some]; exact ⟨_, rfl⟩
+
+theorem setCode_total (s : Impl) (a : Addr) (code : Code) : ∃ x, s.setCode a code = some x := by
+  unfold Impl.setCode
+  obtain ⟨⟨s1, o⟩, hx⟩ := getOrNew_total s a
+  simp only [hx, Impl.jappend, Option.map_some]
+  exact ⟨_, rfl⟩
+
+theorem setState_total (s : Impl) (a : Addr) (k : Key) (v : Val) : ∃ x, s.setState a k v = some x := by
+  unfold Impl.setState
+  obtain ⟨⟨s1, o⟩, hx⟩ := getOrNew_total s a
+  simp only [hx]
+  cases hgs : o.getState s1.store k with
+  | mk o1 prev =>
+    simp only
+    by_cases hp : prev = v
+    · simp only [hp, if_true]; exact ⟨_, rfl⟩
+    · simp only [hp, if_false, Impl.jappend, Option.map_some]; exact ⟨_, rfl⟩
+
+theorem suicide_total (s : Impl) (a : Addr) : ∃ x, s.suicide a = some x := by
+  unfold Impl.suicide
+  cases hg : s.getObj a with
+  | mk s1 ro =>
+    cases ro with
+    | none => exact ⟨_, rfl⟩
+    | some o => simp only [Impl.jappend, Impl.objSetBalance, Option.map_some]; exact ⟨_, rfl⟩
+
+theorem addLog_total (s : Impl) (a : Addr) (p : Nat) : ∃ x, s.addLog a p = some x := by
+  simp only [Impl.addLog, Impl.jappend, Option.map_some]; exact ⟨_, rfl⟩
+
+theorem alAddAddr_total (s : Impl) (a : Addr) : ∃ x, s.alAddAddr a = some x := by
+  unfold Impl.alAddAddr
+  by_cases h : a ∈ s.alAddrs
+  · simp only [h, if_true]; exact ⟨_, rfl⟩
+  · simp only [h, if_false, Impl.jappend]; exact ⟨_, rfl⟩
+
+theorem alAddSlot_total (s : Impl) (a : Addr) (k : Key) : ∃ x, s.alAddSlot a k = some x := by
+  unfold Impl.alAddSlot
+  simp only [Impl.jappend]
+  by_cases h1 : a ∈ s.alAddrs <;> by_cases h2 : (a, k) ∈ s.alSlots <;> simp [h1, h2]
+
+theorem sim_subBalance_none {s : Impl} {r : Ref} (c : Cfg) (h : Sim s r) (a : Addr) (n : Nat)
+    (hs : s.subBalance a n = none) : (r.step c (.subBalance a n)).2 = .panic := by
+  unfold Impl.subBalance at hs
+  obtain ⟨⟨s1, o⟩, hg⟩ := getOrNew_total s a
+  simp only [hg] at hs
+  obtain ⟨es1, hst, hobj, haddr, hok, hview, _, _⟩ := getOrNew_spec (Step.refl h) a o hg
+  have hbal := (view_fields hview).2.1
+  by_cases hn : n = 0
+  · simp [hn] at hs
+  · simp only [hn, if_false, Impl.jappend] at hs
+    by_cases hgt : n > o.bal
+    · have hgt' : n > (r.cur.getOrNew a).2.bal := by rw [← hbal]; exact hgt
+      simp only [Ref.step, hn, if_false, hgt', if_true]
+    · simp [hgt] at hs
 
 theorem sim_step (c : Cfg) {s : Impl} {r : Ref} (h : Sim s r) (op : Op) (hsafe : s.safeStep c op = true) :
     (s.step c op).2 = (r.step c op).2 ∧ ((s.step c op).2 ≠ .panic → Sim (s.step c op).1 (r.step c op).1) := by
-  obtain ⟨hgd, hlp⟩ := safe_parts hsafe
+  have hgd : s.guard c op = true := hsafe
   cases op with
   | createAccount a =>
-    simp only [Impl.step, orPanic] at hlp ⊢
-    cases hs : s.createAccount a with
-    | none => simp only [hs] at hlp; have := hlp trivial; simp [Impl.legitPanic] at this
-    | some s' =>
-      simp only [Impl.guard, Bool.or_eq_true, Bool.not_eq_true'] at hgd
-      exact ⟨by simp [Ref.step], fun _ => sim_createAccount c h a hgd hs⟩
+    obtain ⟨s', hs⟩ := createAccount_total s a
+    simp only [Impl.step, orPanic, hs]
+    simp only [Impl.guard, Bool.or_eq_true, Bool.not_eq_true'] at hgd
+    exact ⟨by simp [Ref.step], fun _ => sim_createAccount c h a hgd hs⟩
   | subBalance a n =>
-    simp only [Impl.step, orPanic] at hlp ⊢
+    simp only [Impl.step, orPanic]
     cases hs : s.subBalance a n with
     | none =>
-      simp only [hs] at hlp
-      have := hlp trivial
-      simp only [Impl.legitPanic, decide_eq_true_eq] at this
-      exact ⟨(sim_subBalance_panic c h a n this).symm, fun hc => absurd rfl hc⟩
+      exact ⟨(sim_subBalance_none c h a n hs).symm, fun hc => absurd rfl hc⟩
     | some s' =>
       have := sim_subBalance c h a n hs
       exact ⟨this.1.symm, fun _ => this.2⟩
   | addBalance a n =>
-    simp only [Impl.step, orPanic] at hlp ⊢
-    cases hs : s.addBalance c a n with
-    | none => simp only [hs] at hlp; have := hlp trivial; simp [Impl.legitPanic] at this
-    | some s' =>
-      simp only [Impl.guard, Bool.not_eq_true', Bool.and_eq_false_iff, beq_eq_false_iff_ne, ne_eq] at hgd
+    obtain ⟨s', hs⟩ := addBalance_total c s a n
+    simp only [Impl.step, orPanic, hs]
+    · simp only [Impl.guard, Bool.not_eq_true', Bool.and_eq_false_iff, beq_eq_false_iff_ne, ne_eq] at hgd
       have hgd' : ¬ (n = 0 ∧ a = c.ripemd) := by
         intro hh; rcases hgd with h1 | h1
         · exact h1 hh.1
@@ -203,10 +292,9 @@ theorem sim_step (c : Cfg) {s : Impl} {r : Ref} (h : Sim s r) (op : Op) (hsafe :
         · rw [h1, h2]; simp only; rw [(view_fields hvv).1])
     exact ⟨this.1, fun _ => this.2⟩
   | setNonce a n =>
-    simp only [Impl.step, orPanic] at hlp ⊢
-    cases hs : s.setNonce a n with
-    | none => simp only [hs] at hlp; have := hlp trivial; simp [Impl.legitPanic] at this
-    | some s' => exact ⟨by simp [Ref.step], fun _ => sim_setNonce c h a n hs⟩
+    obtain ⟨s', hs⟩ := setNonce_total s a n
+    simp only [Impl.step, orPanic, hs]
+    exact ⟨by simp [Ref.step], fun _ => sim_setNonce c h a n hs⟩
   | getCodeHash a =>
     simp only [Impl.step]
     have := sim_getter h a (fun s1 o => (s1, Out.hash (o.map (·.codeHash))))
@@ -228,10 +316,9 @@ theorem sim_step (c : Cfg) {s : Impl} {r : Ref} (h : Sim s r) (op : Op) (hsafe :
         · rw [h1, h2]; simp only; rw [hst, (view_fields hvv).2.2.2.1])
     exact ⟨this.1, fun _ => this.2⟩
   | setCode a code =>
-    simp only [Impl.step, orPanic] at hlp ⊢
-    cases hs : s.setCode a code with
-    | none => simp only [hs] at hlp; have := hlp trivial; simp [Impl.legitPanic] at this
-    | some s' => exact ⟨by simp [Ref.step], fun _ => sim_setCode c h a code hs⟩
+    obtain ⟨s', hs⟩ := setCode_total s a code
+    simp only [Impl.step, orPanic, hs]
+    exact ⟨by simp [Ref.step], fun _ => sim_setCode c h a code hs⟩
   | getCodeSize a =>
     simp only [Impl.step]
     have := sim_getter h a (fun s1 o => (s1, Out.nat (match o with
@@ -251,21 +338,13 @@ theorem sim_step (c : Cfg) {s : Impl} {r : Ref} (h : Sim s r) (op : Op) (hsafe :
             rw [hk.codeEq hz, ← hk.code, hcode])
     exact ⟨this.1, fun _ => this.2⟩
   | addRefund n =>
-    simp only [Impl.step] at hlp ⊢
-    cases hj : s.jappend (.refund s.refund) with
-    | none => simp only [hj] at hlp; have := hlp trivial; simp [Impl.legitPanic] at this
-    | some s1 => exact ⟨by simp [Ref.step], fun _ => sim_addRefund c h n s1 hj⟩
+    obtain ⟨s1, hj⟩ := jappend_total s (.refund s.refund)
+    simp only [Impl.step, hj]
+    exact ⟨by simp [Ref.step], fun _ => sim_addRefund c h n s1 hj⟩
   | subRefund n =>
-    simp only [Impl.step] at hlp ⊢
-    cases hj : s.jappend (.refund s.refund) with
-    | none =>
-      simp only [hj] at hlp
-      have := hlp trivial
-      simp only [Impl.legitPanic, decide_eq_true_eq] at this
-      exact ⟨(sim_subRefund_panic c h n this).symm, fun hc => absurd rfl hc⟩
-    | some s1 =>
-      simp only
-      by_cases hn : n > s1.refund
+    obtain ⟨s1, hj⟩ := jappend_total s (.refund s.refund)
+    simp only [Impl.step, hj]
+    · by_cases hn : n > s1.refund
       · simp only [hn, if_true]
         have hjs := jappend_spec s s1 _ hj
         have : n > s.refund := by rw [← hjs.2.2.2.2.2.1]; exact hn
@@ -285,19 +364,15 @@ theorem sim_step (c : Cfg) {s : Impl} {r : Ref} (h : Sim s r) (op : Op) (hsafe :
     have := sim_getState h a k
     exact ⟨this.1, fun _ => this.2⟩
   | setState a k v =>
-    simp only [Impl.step, orPanic] at hlp ⊢
-    cases hs : s.setState a k v with
-    | none => simp only [hs] at hlp; have := hlp trivial; simp [Impl.legitPanic] at this
-    | some s' =>
-      refine ⟨?_, fun _ => sim_setState c h a k v hs⟩
+    obtain ⟨s', hs⟩ := setState_total s a k v
+    simp only [Impl.step, orPanic, hs]
+    · refine ⟨?_, fun _ => sim_setState c h a k v hs⟩
       simp only [Ref.step]
       split <;> rfl
   | suicide a =>
-    simp only [Impl.step] at hlp ⊢
-    cases hs : s.suicide a with
-    | none => simp only [hs] at hlp; have := hlp trivial; simp [Impl.legitPanic] at this
-    | some p =>
-      obtain ⟨s', b⟩ := p
+    obtain ⟨p, hs⟩ := suicide_total s a
+    simp only [Impl.step, hs]
+    · obtain ⟨s', b⟩ := p
       have := sim_suicide c h a b hs
       exact ⟨this.1.symm, fun _ => this.2⟩
   | hasSuicided a =>
@@ -331,32 +406,30 @@ theorem sim_step (c : Cfg) {s : Impl} {r : Ref} (h : Sim s r) (op : Op) (hsafe :
         · rw [h1, h2]; simp only; rw [empty_eq hvv])
     exact ⟨this.1, fun _ => this.2⟩
   | addAddressToAccessList a =>
-    simp only [Impl.step, orPanic] at hlp ⊢
-    cases hs : s.alAddAddr a with
-    | none => simp only [hs] at hlp; have := hlp trivial; simp [Impl.legitPanic] at this
-    | some s' => exact ⟨by simp [Ref.step], fun _ => sim_alAddAddr c h a hs⟩
+    obtain ⟨s', hs⟩ := alAddAddr_total s a
+    simp only [Impl.step, orPanic, hs]
+    exact ⟨by simp [Ref.step], fun _ => sim_alAddAddr c h a hs⟩
   | addSlotToAccessList a k =>
-    simp only [Impl.step, orPanic] at hlp ⊢
-    cases hs : s.alAddSlot a k with
-    | none => simp only [hs] at hlp; have := hlp trivial; simp [Impl.legitPanic] at this
-    | some s' =>
-      simp only [Impl.guard, Bool.or_eq_true, decide_eq_true_eq] at hgd
-      exact ⟨by simp [Ref.step], fun _ => sim_alAddSlot c h a k hgd hs⟩
+    obtain ⟨s', hs⟩ := alAddSlot_total s a k
+    simp only [Impl.step, orPanic, hs]
+    exact ⟨by simp [Ref.step], fun _ => sim_alAddSlot c h a k hs⟩
   | addressInAccessList a =>
     simp only [Impl.step, Ref.step]
-    exact ⟨by rw [(abs_fields h).2.2.2.2.1], fun _ => h⟩
+    have hm : a ∈ s.alAddrs ↔ a ∈ r.cur.alAddrs := mem_iff_of_count ((abs_fields h).2.2.2.2.1 a)
+    exact ⟨by simp only [hm], fun _ => h⟩
   | slotInAccessList a k =>
     simp only [Impl.step, Ref.step]
-    exact ⟨by rw [(abs_fields h).2.2.2.2.1, (abs_fields h).2.2.2.2.2], fun _ => h⟩
+    have hm : a ∈ s.alAddrs ↔ a ∈ r.cur.alAddrs := mem_iff_of_count ((abs_fields h).2.2.2.2.1 a)
+    have hm2 : (a, k) ∈ s.alSlots ↔ (a, k) ∈ r.cur.alSlots := mem_iff_of_count ((abs_fields h).2.2.2.2.2 (a, k))
+    exact ⟨by simp only [hm, hm2], fun _ => h⟩
   | prepare th =>
     simp only [Impl.step]
     simp only [Impl.guard, Bool.and_eq_true, List.isEmpty_iff] at hgd
     exact ⟨by simp [Ref.step], fun _ => sim_prepare c h th hgd.1 hgd.2⟩
   | addLog a p =>
-    simp only [Impl.step, orPanic] at hlp ⊢
-    cases hs : s.addLog a p with
-    | none => simp only [hs] at hlp; have := hlp trivial; simp [Impl.legitPanic] at this
-    | some s' => exact ⟨by simp [Ref.step], fun _ => sim_addLog c h a p hs⟩
+    obtain ⟨s', hs⟩ := addLog_total s a p
+    simp only [Impl.step, orPanic, hs]
+    exact ⟨by simp [Ref.step], fun _ => sim_addLog c h a p hs⟩
   | getLogs =>
     simp only [Impl.step, Ref.step]
     exact ⟨by rw [sim_getLogs h], fun _ => h⟩
@@ -365,20 +438,20 @@ theorem sim_step (c : Cfg) {s : Impl} {r : Ref} (h : Sim s r) (op : Op) (hsafe :
     have := sim_snapshot c h
     exact ⟨this.1.symm, fun _ => this.2⟩
   | revertToSnapshot id =>
-    simp only [Impl.step, orPanic] at hlp ⊢
+    simp only [Impl.step, orPanic]
     cases hs : s.revertToSnapshot id with
     | none =>
-      simp only [hs] at hlp
-      exact ⟨(sim_revert_panic c h id (hlp trivial)).symm, fun hc => absurd rfl hc⟩
+      exact ⟨(sim_revert_panic c h id (revert_none_legit h id hs)).symm, fun hc => absurd rfl hc⟩
     | some s' =>
       have := sim_revert c h id hs
       exact ⟨this.1.symm, fun _ => this.2⟩
   | finalise b =>
-    simp only [Impl.step]
     simp only [Impl.guard, Bool.and_eq_true] at hgd
     have hb : b = true := hgd.1
     subst hb
-    exact ⟨by simp [Ref.step], fun _ => sim_finalise c h hgd.2⟩
+    have hf := sim_finalise c h hgd.2
+    simp only [Impl.step, hf.1]
+    exact ⟨by simp [Ref.step], fun _ => hf.2⟩
   | reset =>
     simp only [Impl.step]
     simp only [Impl.guard, List.isEmpty_iff] at hgd
